@@ -97,6 +97,18 @@ def ang(U1, U2, Rm):
     return math.degrees(math.acos(min(1.0, max(-1.0, t))))
 
 
+def ang_accurate(U1, U2, r):
+    """rotation angle (degrees) of U1'.U2.r' from atan2(|antisymmetric part|, trace): accurate also next to 0 and 180 degrees"""
+    M = U1.T.dot(U2).dot(np.asarray(r, float).T)
+    A = 0.5 * (M - M.T)
+    sn = math.sqrt(A[2, 1] ** 2 + A[0, 2] ** 2 + A[1, 0] ** 2)
+    cs = 0.5 * (np.trace(M) - 1.0)
+    if sn < 1e-4 and cs < 0:
+        # next to 180 degrees the antisymmetric part is tiny: use the symmetric part, M + I = 2 n n' (1 - cos) + ..., |sin| = sn is still the accurate small quantity
+        return math.degrees(math.pi - math.asin(min(1.0, sn)))
+    return math.degrees(math.atan2(sn, cs))
+
+
 def search(ctx):
     from xfab import symmetry, tools
     import xfab
@@ -117,14 +129,25 @@ def search(ctx):
             R = np.asarray(symmetry.rotations(k), float)
             U1, U2, Q = G.rotation(ctx.rng), G.rotation(ctx.rng), G.rotation(ctx.rng, 'uniform')
             j = ctx.rng.randrange(len(R))
+            tol_row = 1e-6
+            if i % 6 == 5:
+                # nearly equal (or nearly symmetry-related) orientations: U2 = U1.g.dR with a rotation dR of 1e-6 .. 1e-4 rad about a general axis.  Every two-fold operator
+                # then gives an angle within 0.006 degrees of 180, each at its own distance; arccos loses half the digits there, hence the wider tolerance for these rows
+                ax = np.array([ctx.rng.gauss(0, 1) for _ in range(3)])
+                ax /= np.linalg.norm(ax)
+                d = 10 ** ctx.rng.uniform(-6, -4)
+                Kx = np.array([[0, -ax[2], ax[1]], [ax[2], 0, -ax[0]], [-ax[1], ax[0], 0]])
+                dR = np.eye(3) + math.sin(d) * Kx + (1 - math.cos(d)) * Kx.dot(Kx)
+                U2 = U1.dot(R[ctx.rng.randrange(len(R))].T).dot(dR)
+                tol_row = 2e-5
             why = None
             try:
                 m = symmetry.Umis(U1, U2, k)
                 base = sorted(m[:, 1])
-                exp = [ang(U1, U2, r) for r in R]
+                exp = [ang(U1, U2, r) for r in R] if tol_row == 1e-6 else [ang_accurate(U1, U2, r) for r in R]
                 if m.shape != (len(R), 2) or list(m[:, 0]) != list(range(len(R))):
                     why = 'Umis does not return one row per operator'
-                elif np.max(np.abs(m[:, 1] - exp)) > 1e-6:
+                elif np.max(np.abs(m[:, 1] - exp)) > tol_row:
                     why = 'Umis angle k is not the rotation angle of U1\'.U2.rot[k]\''
                 elif np.min(m[:, 1]) < 0 or np.max(m[:, 1]) > 180:
                     why = 'angle outside [0,180]'
